@@ -37,12 +37,25 @@ What is proved
   (`C02.node_protocol_full` is that hypothesis as an unproved `def`; `protoB` decides it per
   schedule, `C02.protocol_check_sound`). `C02.atracer_flush_in_order`: what those replies are.
 
-Not proved (kept as `def … : Prop`): `C02.node_protocol_full` (see above), `C02.node_contract_full` – the same for one-to-many and
-many-to-one nodes and for actions returning the in packet itself; these are covered by the
-correspondence runs and the oracle of harness/c02 only.
+* `C02.node_protocol : C02.node_protocol_full`   the node programs follow the call protocol under every
+  fresh-id schedule, every kind (invariant `Uniflow.ATracer.J`, lean/Uniflow/Proofs/NodeProtocol.lean);
+  hence, unconditionally, `C02.node_contract` (all kinds), `C02.node_contract_one_to_many`,
+  `C02.node_contract_many_to_one`.
+* `C02.answers_in_read_order_all_kinds`, `C02.reply_content_all_kinds`, `C02.reply_cells_provenance`
+  statement level for every kind: each request answered once, per reader in read order; the reply is
+  `Join` of the answers to the derived packets (error dominates, nothing accepted ⇒ echo).
+* `C02.compose_instance_partial`, `C02.compose_chain`, `C02.compose_diamond`   `compose` instantiated with
+  the concrete node contract and C01's writer contract for every finite acyclic graph; the
+  end-to-end join-tree statement is not derived (see the docstring).
+
+Not proved: the node theorems require fresh packet ids for everything an action returns, so an action
+returning its input packet is covered at tracer level only (`C02.tracer_refines`, `direct` requests);
+`C02.node_contract_full` (kept as a `def`) is superseded by `C02.node_contract`.
 -/
 import Uniflow.Proofs.Node
 import Uniflow.Proofs.ATracer
+import Uniflow.Proofs.NodeProtocol
+import Uniflow.Props.C01
 
 open Uniflow.Tracer Uniflow.Node Uniflow.NodeSpec
 
@@ -355,6 +368,106 @@ def C02.node_protocol_full : Prop :=
   ∀ (k : Kind) (sched : List Step), (sched.flatMap introduced).Nodup → (∀ st ∈ sched, validFor k st) →
     Protocol {} (callsOf (Uniflow.Node.mk k) sched)
 
+
+/-! ### the node programs follow the call protocol: unconditional node contracts for every kind -/
+
+open Uniflow.ATracer in
+/-- **The node programs follow the tracer's call protocol** under every schedule whose packet ids are
+fresh (every `packet.New` is a new uuid), for every node kind – any interleaving of the forward
+threads' single `Link`/`Write` calls with each other, with reads, deliveries and downstream answers.
+Invariant (`Uniflow.ATracer.J`): the remaining program of each forward thread is "links then writes";
+the writes' packets are exactly the currently linked cells of the thread's request followed by the
+pending link targets; that request stays in the abstract state while ops remain; a counting
+invariant makes inbox packets and pending link targets fresh. -/
+theorem C02.node_protocol : C02.node_protocol_full := by
+  intro k sched hnd _
+  have e : introduced = introS := by
+    funext st
+    cases st with
+    | finish i o => cases o <;> rfl
+    | _ => rfl
+  exact Uniflow.ATracer.node_protocol k sched (e ▸ hnd)
+
+open Uniflow.ATracer in
+/-- **Node contract, every kind, unconditional.** For a node of any kind and every schedule with
+fresh packet ids – any number of requests in flight, answers falling anywhere between a forward
+thread's `Read`, `Link` and `Write` calls – the replies sent to the in-readers are exactly the
+abstract tracer's replies on the calls the node makes (each request answered once, per reader in
+read order, with `Join` of the answers to the packets derived from it:
+`C02.answers_in_read_order_all_kinds`, `C02.reply_content_all_kinds`), and the tracer never panics. -/
+theorem C02.node_contract (k : Kind) (sched : List Step) (hnd : (sched.flatMap introduced).Nodup) :
+    (Uniflow.Node.run (Uniflow.Node.mk k) sched).2 = (arun {} (callsOf (Uniflow.Node.mk k) sched)).2 ∧
+    (Uniflow.Node.run (Uniflow.Node.mk k) sched).1.tr.panic = false :=
+  C02.node_contract_partial_all_kinds k sched (by
+    have e : introduced = introS := by
+      funext st
+      cases st with
+      | finish i o => cases o <;> rfl
+      | _ => rfl
+    exact Uniflow.ATracer.node_protocol k sched (e ▸ hnd))
+
+open Uniflow.ATracer in
+/-- one-to-many node, unconditional (several derived packets per request, error port, echo) -/
+theorem C02.node_contract_one_to_many (nOut : Nat) (sched : List Step) (hnd : (sched.flatMap introduced).Nodup) :
+    (Uniflow.Node.run (Uniflow.Node.mk (.oneToMany nOut)) sched).2 =
+      (arun {} (callsOf (Uniflow.Node.mk (.oneToMany nOut)) sched)).2 ∧
+    (Uniflow.Node.run (Uniflow.Node.mk (.oneToMany nOut)) sched).1.tr.panic = false :=
+  C02.node_contract _ sched hnd
+
+open Uniflow.ATracer in
+/-- many-to-one node with its `ReadGroup`, unconditional -/
+theorem C02.node_contract_many_to_one (nIn : Nat) (sched : List Step) (hnd : (sched.flatMap introduced).Nodup) :
+    (Uniflow.Node.run (Uniflow.Node.mk (.manyToOne nIn)) sched).2 =
+      (arun {} (callsOf (Uniflow.Node.mk (.manyToOne nIn)) sched)).2 ∧
+    (Uniflow.Node.run (Uniflow.Node.mk (.manyToOne nIn)) sched).1.tr.panic = false :=
+  C02.node_contract _ sched hnd
+
+/-! ### statement-level facts for every kind -/
+
+open Uniflow.ATracer in
+/-- **Answered exactly once, in read order, every kind.** For a node of any kind and every fresh-id
+schedule there is a list `popped` of requests (each in the state it had when it was answered) such
+that: the node's replies are exactly `popped`'s replies, in that order, one per request, each on the
+reader the request was read on; every request in `popped` was complete; and for EVERY in-reader `r`
+the requests read on `r` during the run (`readLog`, in read order) are the answered ones (in the
+order answered) followed by the ones still unanswered (in the order held). So on each reader the
+k-th reply answers the k-th request read, no request is answered twice or skipped. -/
+theorem C02.answers_in_read_order_all_kinds (k : Kind) (sched : List Step)
+    (hnd : (sched.flatMap introduced).Nodup) :
+    ∃ popped : List Req,
+      (Uniflow.Node.run (Uniflow.Node.mk k) sched).2 = popped.flatMap replyOfReq ∧
+      (∀ x ∈ popped, ∃ b, reply x.st = some b) ∧
+      ∀ r, readLog (callsOf (Uniflow.Node.mk k) sched) r =
+        (popped.filter (fun x => x.r = r)).map (·.p) ++
+        ((arun {} (callsOf (Uniflow.Node.mk k) sched)).1.reqs.filter (fun x => x.r = r)).map (·.p) := by
+  obtain ⟨popped, h1, h2, h3⟩ := arun_answers (callsOf (Uniflow.Node.mk k) sched) {}
+  refine ⟨popped, by rw [(C02.node_contract k sched hnd).1, h1], h2, ?_⟩
+  intro r; have := h3 r; simpa using this
+
+open Uniflow.ATracer in
+/-- **The reply is the `Join` of the answers to the derived packets.** A request is answered only in
+the state `cells cs` with at least one cell, all cells filled; the reply is `packet.Join` of the
+cells' answers in link (= out-port) order. -/
+theorem C02.reply_content_all_kinds (st : RSt) (a : Ans) (h : reply st = some a) :
+    ∃ cs, st = .cells cs ∧ cs ≠ [] ∧ cs = (filledAns cs).map Cell.filled ∧ a = join (filledAns cs) :=
+  reply_content st a h
+
+open Uniflow.ATracer in
+/-- where the cells' answers come from: (i) a write nobody accepted – no reader downstream, or
+`Write(nil, in)` when the action emitted nothing – answers the written packet with itself (echo);
+(ii) filling packet `k` changes exactly the open cell of `k` into `filled ans` (so an answer is
+credited to the packet it was given for); (iii) with two or more derived packets an error among
+their answers makes the reply an error; with exactly one the reply is that answer. -/
+theorem C02.reply_cells_provenance :
+    (∀ (a : A) (w : Option Wid) (k : Pid) (pay : Ans) (acc : Bool), ¬ (w.isSome = true ∧ acc = true) →
+        awrite a w k pay acc = afill a k pay) ∧
+    (∀ (k : Pid) (ans : Ans) (cs : List Cell), (openIds cs).Nodup → k ∈ openIds cs →
+        ∃ pre c post, cs = pre ++ c :: post ∧ openIds [c] = [k] ∧ fillCell k ans cs = pre ++ Cell.filled ans :: post) ∧
+    (∀ (a b : Ans) (as : List Ans) (ms : List Nat), Ans.pay (.err ms) ∈ a :: b :: as →
+        ∃ ms', join (a :: b :: as) = .pay (.err ms')) ∧
+    (∀ a : Ans, join [a] = a) :=
+  ⟨write_refused_is_echo, fillCell_spec, join_error_dominates, join_single⟩
+
 /-! ### the pinned tree -/
 
 /-- On the pinned tree (`strict := false`: a read packet without an entry in `receives` counts as
@@ -403,6 +516,64 @@ theorem C02.compose (n : Nat) (feeds : Nat → Nat → Nat → Prop)
       exact ih j h2 (by omega)
   intro i hi
   exact key (n - i) i hi (Nat.le_refl _)
+
+
+/-! ### `compose` instantiated with the concrete local contracts -/
+
+open Uniflow.ATracer in
+/-- the node contract of one node, as proved above, as a predicate (what `NodeOK i` is instantiated
+with): for every fresh-id schedule of that node – i.e. for EVERY behaviour of its environment,
+whatever the writers downstream answer and whenever – its replies are the abstract tracer's, the
+tracer does not panic, and on every in-reader the requests are answered once, in read order. -/
+def C02.NodeOKc (k : Kind) : Prop :=
+  ∀ sched : List Step, (sched.flatMap introduced).Nodup →
+    ((Uniflow.Node.run (Uniflow.Node.mk k) sched).2 = (arun {} (callsOf (Uniflow.Node.mk k) sched)).2 ∧
+     (Uniflow.Node.run (Uniflow.Node.mk k) sched).1.tr.panic = false) ∧
+    ∃ popped : List Req,
+      (Uniflow.Node.run (Uniflow.Node.mk k) sched).2 = popped.flatMap replyOfReq ∧
+      (∀ x ∈ popped, ∃ b, reply x.st = some b) ∧
+      ∀ r, readLog (callsOf (Uniflow.Node.mk k) sched) r =
+        (popped.filter (fun x => x.r = r)).map (·.p) ++
+        ((arun {} (callsOf (Uniflow.Node.mk k) sched)).1.reqs.filter (fun x => x.r = r)).map (·.p)
+
+/-- the writer contract of C01 (`C01.in_order`), as a predicate (what `WriterOK i k` is instantiated
+with): for every history of a writer its responses are the specification's and the k-th response
+pushed into the pump answers the k-th accepted write. -/
+def C02.WriterOKc : Prop :=
+  ∀ h : List Uniflow.Writer.Step,
+    Uniflow.Writer.emitted (Uniflow.Writer.run h).2 = Uniflow.Writer.emitted (Uniflow.WriterSpec.run h).2 ∧
+    (Uniflow.WriterSpec.run h).1.emittedIds = List.range (Uniflow.Writer.emitted (Uniflow.Writer.run h).2).length
+
+/-- **`compose` with concrete predicates, for every finite acyclic graph of the three node kinds**
+(`kind i` = kind of node `i`, `feeds i k j` = writer `k` of node `i` is linked to node `j`): every
+node satisfies `C02.NodeOKc` and every edge `C02.WriterOKc`.
+`_partial`: both local contracts are proved against ALL environment behaviours (the node theorem
+quantifies over every schedule of answers, C01's over every history), so the assume/guarantee
+antecedents of `compose` are discharged without being used. What this gives for a graph is the
+conjunction of the local guarantees on every node and edge – each request answered once, in order,
+with the `Join` of the answers its node received, and each writer handing the k-th response to the
+k-th accepted write – i.e. the premises from which the end-to-end statement (the source's response
+is the join over the whole derivation tree) follows by induction on the depth of the tree. That last
+induction needs a model of the nodes and writers running together (`Uniflow.Flow` uses a simplified
+writer, not C01's); it is NOT formalised here. -/
+theorem C02.compose_instance_partial (n : Nat) (kind : Nat → Kind) (feeds : Nat → Nat → Nat → Prop)
+    (acyclic : ∀ i k j, feeds i k j → i < j) (bounded : ∀ i k j, feeds i k j → j < n) :
+    ∀ i, i < n → C02.NodeOKc (kind i) :=
+  C02.compose n feeds (fun i => C02.NodeOKc (kind i)) (fun _ _ => C02.WriterOKc) acyclic bounded
+    (fun i _ _ sched hnd => ⟨C02.node_contract (kind i) sched hnd, C02.answers_in_read_order_all_kinds (kind i) sched hnd⟩)
+    (fun _ _ _ => C01.in_order)
+
+/-- chains of `n` one-to-one nodes (node `i` feeds node `i+1` through its out writer) -/
+theorem C02.compose_chain (n : Nat) : ∀ i, i < n → C02.NodeOKc .oneToOne :=
+  C02.compose_instance_partial n (fun _ => .oneToOne) (fun i k j => k = 1 ∧ j = i + 1 ∧ j < n)
+    (by intro i k j h; omega) (by intro i k j h; omega)
+
+/-- a diamond: a one-to-many node 0 fans out to one-to-one nodes 1 and 2, joined by the many-to-one node 3 -/
+theorem C02.compose_diamond : ∀ i, i < 4 →
+    C02.NodeOKc (match i with | 0 => .oneToMany 2 | 3 => .manyToOne 2 | _ => .oneToOne) :=
+  C02.compose_instance_partial 4 (fun i => match i with | 0 => .oneToMany 2 | 3 => .manyToOne 2 | _ => .oneToOne)
+    (fun i k j => (i = 0 ∧ ((k = 1 ∧ j = 1) ∨ (k = 2 ∧ j = 2))) ∨ ((i = 1 ∨ i = 2) ∧ k = 1 ∧ j = 3))
+    (by intro i k j h; omega) (by intro i k j h; omega)
 
 /-- non-vacuity of `compose`: a diamond 0 → {1, 2} → 3 with trivially true contracts. -/
 theorem C02.compose_nonvacuous :
